@@ -1450,7 +1450,7 @@ Lemma on_cmd_GI : forall g s q c dists seeds,
   1 <= g_alpha g -> GI s -> GI (fst (on_cmd g s q c dists seeds)).
 Proof.
   intros g s q c dists seeds Ha G. unfold on_cmd.
-  destruct c as [| qr | qr | qr local | | qr]; cbn [fst]; try (apply start_lookup_GI; [exact Ha | exact G]).
+  destruct c as [| qr | qr | qr local | kp0 | qr]; cbn [fst]; try (apply start_lookup_GI; [exact Ha | exact G]).
   destruct qr; destruct local; cbn [fst]; first [exact G | apply start_lookup_GI; [exact Ha | exact G]].
 Qed.
 
@@ -1492,7 +1492,7 @@ Qed.
 Lemma on_cmd_linked : forall g s q c dists seeds, linked s -> linked (fst (on_cmd g s q c dists seeds)).
 Proof.
   intros g s q c dists seeds H. unfold on_cmd.
-  destruct c as [| qr | qr | qr local | | qr]; cbn [fst]; try exact H.
+  destruct c as [| qr | qr | qr local | kp0 | qr]; cbn [fst]; try exact H.
   destruct qr; destruct local; cbn [fst]; exact H.
 Qed.
 
@@ -1822,7 +1822,7 @@ Proof.
               (terminals q [] + lv q (start_lookup g s q0 lk qr c0 seeds))%nat = (lv q s + (if q0 =? q then 1 else 0))%nat).
     { intros lk qr c0. unfold lv, start_lookup. rewrite live_aset, N.eqb_sym.
       destruct (N.eqb_spec q0 q) as [E | E]; cbn [orb terminals filter length]; [subst q; rewrite Hfr; reflexivity | lia]. }
-    destruct c as [| qr | qr | qr local | | qr]; cbn [fst snd]; try apply Start.
+    destruct c as [| qr | qr | qr local | kp0 | qr]; cbn [fst snd]; try apply Start.
     destruct qr; destruct local; cbn [fst snd]; try apply Start;
       unfold terminals; cbn [filter term_of opt_is]; unfold lv;
       destruct (N.eqb_spec q0 q) as [E | E]; cbn [length]; try (subst q; rewrite Hfr); try lia;
@@ -2448,7 +2448,7 @@ Proof.
     assert (Other : forall q1, q1 <> q -> quorum_of_ev q1 (ECmd q c dists seeds) = None).
     { intros q1 E. cbn [quorum_of_ev]. destruct c; try reflexivity;
         destruct (N.eqb_spec q q1); first [congruence | reflexivity]. }
-    unfold on_cmd. destruct c as [| qr | qr | qr local | | qr]; cbn [fst snd].
+    unfold on_cmd. destruct c as [| qr | qr | qr local | kp0 | qr]; cbn [fst snd].
     + apply Start; [intros x [] | intros [K | K]; discriminate K | exact Other].
     + apply Start; [intros x [] | intros _; cbn [quorum_of_ev]; rewrite N.eqb_refl; reflexivity | exact Other].
     + apply Start; [intros x [] | intros _; cbn [quorum_of_ev]; rewrite N.eqb_refl; reflexivity | exact Other].
